@@ -50,7 +50,8 @@ def gen(rng, i, tier):
     codec = det
     for _ in range(rng.choice([0, 1, 2, 4])):
         ops.append(rng.choice([["attr", "title", F.rand_str(r, codec)], ["set", "CREDIT", F.rand_str(r, codec)], ["del", "ARTIST"], ["set", "SUBTITLE", None],
-                               ["dupchart"], ["delchart"], ["attr", "artist", ""]]))
+                               ["dupchart"], ["delchart"], ["attr", "artist", ""],
+                               ["notes", rng.choice(["1000\n0:00", "10;0\n0000", "00\\00\n0001", "0000 // beat 1\n0000", "{tornado:1.5}0\n0000"])]]))
     return {"fmt": fmt, "data": data.hex(), "try": tr, "explicit": rng.choice([None, None, None, det, "utf-8"]), "output": rng.random() < 0.4,
             "backup": rng.choice([None, None, "ok", "ok", "clash_input", "clash_output"]), "ops": ops, "fs": rng.choice(["native", "mem"]), "seed": seed}
 
